@@ -167,7 +167,7 @@ type bundleFile struct {
 	Rules []ruleDesc // Group without prefix, Line, Src, Comment
 }
 
-var bundleRuleRe = regexp.MustCompile("^\\tm\\.(Match|MatchComment)\\(`([^`]*)`\\)\\.Report\\(`[^`]*`\\)$")
+var bundleRuleRe = regexp.MustCompile("^\\tm\\.(Match|MatchComment)\\(`([^`]*)`\\)(\\.Where\\((!?)m\\.Deadcode\\(\\)\\))?\\.Report\\(`[^`]*`\\)$")
 var bundleFuncRe = regexp.MustCompile(`^func (\w+)\(m dsl\.Matcher\) \{$`)
 var bundleImportRe = regexp.MustCompile(`^\tm\.Import\("([^"]+)"\)$`)
 
@@ -215,7 +215,14 @@ func readBundle(pkg string) ([]bundleFile, error) {
 			if m == nil {
 				return nil, fmt.Errorf("%s:%d: rule line not understood: %s", name, i+1, line)
 			}
-			bf.Rules = append(bf.Rules, ruleDesc{Group: group, Line: i + 1, File: name, Src: m[2], Comment: m[1] == "MatchComment",
+			filt := ""
+			if m[3] != "" {
+				filt = "dead"
+				if m[4] == "!" {
+					filt = "live"
+				}
+			}
+			bf.Rules = append(bf.Rules, ruleDesc{Group: group, Line: i + 1, File: name, Src: m[2], Comment: m[1] == "MatchComment", Filter: filt,
 				Imports: append([]string(nil), gimports...), After: after})
 		}
 		out = append(out, bf)
